@@ -10,6 +10,8 @@ Line protocol for the configuration-validation model (component `cfgb` of the dr
            <first> <max> <inflight> <packetsize> <family 4|o> <initial> <pid>
       -> err | ok <proto> <strat> <portdir> <first> <max> <initial> <packetsize> <inflight> <priv 0|1>
                                                     (`TrippyConfig::build_config`, strategy-relevant part)
+  cfgb multi <mode> <proto i|u|t> <number of targets> <dns-resolve-all 0|1>
+      -> ok | err                                   (`validate_multi`)
 -/
 namespace TV.Builder
 open TV TV.Strat
@@ -106,6 +108,16 @@ def handle (args : List String) : Option String :=
     let src ← parseSrc src
     handleBuild proto strat pd first max initial v6 priv src
   | "cli" :: rest => handleCli rest
+  | ["multi", mode, proto, n, all] => do
+    -- cfgb multi <mode> <proto i|u|t> <number of targets> <dns-resolve-all 0|1>  -> ok | err
+    let mode ← (match mode with
+      | "tui" => some OutMode.tui | "stream" => some .stream | "pretty" => some .pretty | "markdown" => some .markdown
+      | "csv" => some .csv | "json" => some .json | "dot" => some .dot | "flows" => some .flows | "silent" => some .silent
+      | _ => none)
+    let proto ← parseProto proto
+    let n ← n.toNat?
+    let all ← parseBool all
+    pure (if validateMulti mode proto n all then "ok" else "err")
   | _ => none
 
 end TV.Builder
